@@ -25,6 +25,7 @@ import (
 	"os"
 	"path/filepath"
 	"sort"
+	"strconv"
 	"strings"
 	"sync"
 	"sync/atomic"
@@ -262,7 +263,7 @@ func c11Judge(keyOps []c11Op, valKey map[int64]string, f c11Op) (kind, what stri
 	// value is what that fetch put back into the cache.
 	for i := range keyOps {
 		o := &keyOps[i]
-		if o.Kind == "fetch" && o.OK && o.Val == f.Val && o.Seq != f.Seq && o.Call < over.Ret && o.Ret > over.Call && o.Ret <= f.Ret {
+		if o.Kind == "fetch" && o.OK && o.Val == f.Val && o.Seq != f.Seq && o.Call < over.Ret && o.Ret > over.Call && o.Call < f.Ret {
 			return "stale-refill", what + fmt.Sprintf("; an earlier fetch [seq %d, client %d] overlapped that SetCursor, returned the old value and returned %.3f ms after the set did", o.Seq, o.Client, float64(o.Ret-over.Ret)/1e6)
 		}
 	}
@@ -340,11 +341,10 @@ func (e *c11Env) witness(key string, around int) map[string]any {
 // key (offsets only), plus HW and the segment files.
 func (e *c11Env) dumpKey(key string) []string {
 	var out []string
-	parts := strings.Split(key, "|")
-	if len(parts) != 3 {
+	wire := c11WireKey(key)
+	if wire == nil {
 		return nil
 	}
-	wire := []byte(fmt.Sprintf("%s,%s,%s", parts[0], parts[1], parts[2]))
 	for _, n := range e.c.Running() {
 		srv := n.Server()
 		if srv == nil {
@@ -400,15 +400,100 @@ func (e *c11Env) violation(kind, phase, what string, key string, seq int) {
 	}
 	e.flagged[key] = true
 	e.mu.Unlock()
-	e.rep.Violation(e.fingerprint(kind, phase), what+" ["+e.cfg.sig()+"]", e.witness(key, seq))
+	fp := e.fingerprint(kind, phase)
+	if kind == "stale" || kind == "fetch-fails" {
+		// Observable state that explains a wrong answer from the log: the HW
+		// lies in a compacted (sparse) segment, where the reverse reader's
+		// start slot "offset - BaseOffset" is not the entry of that offset.
+		if node, desc := e.hwInSparseSegment(key); node != "" {
+			fp = "C11:stale-after-compaction"
+			what += fmt.Sprintf("; on node %s the cursors partition's HW lies in a compacted segment (%s), so the reverse scan that looks for the cursor starts at index slot HW-BaseOffset, which is not the HW's entry in a sparse segment", node, desc)
+		}
+	}
+	e.rep.Violation(fp, what+" ["+e.cfg.sig()+"]", e.witness(key, seq))
 }
 
-// judgeNow judges one fetch against everything recorded so far.
-func (e *c11Env) judgeNow(f c11Op) bool {
+// c11WireKey is the key under which the server files the cursor.
+func c11WireKey(key string) []byte {
+	parts := strings.Split(key, "|")
+	if len(parts) != 3 {
+		return nil
+	}
+	return []byte(fmt.Sprintf("%s,%s,%s", parts[0], parts[1], parts[2]))
+}
+
+// hwInSparseSegment reports whether, on some running node, the HW of the
+// cursors partition of key lies in a segment that holds fewer records than
+// offsets between its base and the HW.
+func (e *c11Env) hwInSparseSegment(key string) (node, desc string) {
+	wire := c11WireKey(key)
+	if wire == nil {
+		return "", ""
+	}
+	for _, n := range e.c.Running() {
+		srv := n.Server()
+		if srv == nil {
+			continue
+		}
+		st := srv.metadata.GetStream(cursorsStream)
+		if st == nil {
+			continue
+		}
+		pid := int32(hasher(wire) % uint32(len(st.GetPartitions())))
+		p := srv.metadata.GetPartition(cursorsStream, pid)
+		if p == nil || p.IsPaused() {
+			continue
+		}
+		hw := p.log.HighWatermark()
+		bases := c11SegmentBaseOffsets(srv, pid)
+		base := int64(-1)
+		for _, b := range bases {
+			if b <= hw && b > base {
+				base = b
+			}
+		}
+		if base < 0 {
+			continue
+		}
+		recs, err := vfReadLog(p.log, 0, true)
+		if err != nil {
+			continue
+		}
+		cnt := int64(0)
+		for _, r := range recs {
+			if r.Offset >= base && r.Offset <= hw {
+				cnt++
+			}
+		}
+		if cnt < hw-base+1 {
+			return n.ID, fmt.Sprintf("partition %d: HW=%d, segment base %d holds %d records in [%d,%d], newest=%d, segments %v", pid, hw, base, cnt, base, hw, p.log.NewestOffset(), bases)
+		}
+	}
+	return "", ""
+}
+
+func c11SegmentBaseOffsets(srv *Server, pid int32) []int64 {
+	var out []int64
+	for _, s := range c11SegmentBases(srv, pid) {
+		b, err := strconv.ParseInt("0"+s, 10, 64)
+		if err != nil {
+			continue
+		}
+		out = append(out, b)
+	}
+	sort.Slice(out, func(i, j int) bool { return out[i] < out[j] })
+	return out
+}
+
+// judgeNow judges one fetch against everything recorded so far.  While other
+// clients are running (inline) only the staleness rule is sound: it looks at
+// sets that returned before the fetch began, whereas the set that passed the
+// fetched value may still be in flight and unrecorded.
+func (e *c11Env) judgeNow(f c11Op, inline bool) bool {
 	ops := e.snapshot()
 	byKey, valKey := c11Index(ops)
 	kind, what := c11Judge(byKey[f.Key], valKey, f)
-	if kind == "" {
+	if kind == "" || (inline && !strings.HasPrefix(kind, "stale")) {
 		return true
 	}
 	e.violation(kind, f.Phase, what, f.Key, f.Seq)
@@ -555,7 +640,7 @@ func (e *c11Env) concurrent(n *vfNode, rng *kit.RNG, phase string, hot, warm []c
 	nev := rng.Range(3, 7)
 	for i := 0; i < nev; i++ {
 		k := "purge"
-		if e.cfg.CleanMode == "forced" && rng.Chance(3, 5) {
+		if e.cfg.CleanMode == "forced" && e.cfg.AutoPause == 0 && rng.Chance(3, 5) {
 			k = "clean"
 		}
 		evs = append(evs, ev{int64(rng.Intn(int(total))), k})
@@ -619,6 +704,8 @@ func (e *c11Env) concurrent(n *vfNode, rng *kit.RNG, phase string, hot, warm []c
 					op := e.doFetch(n, cl, k, phase)
 					if !op.OK {
 						atomic.AddInt64(&e.fetchErrConc, 1)
+					} else {
+						e.judgeNow(op, true) // sound at any time: only looks at sets that returned before the fetch began
 					}
 				}
 				atomic.AddInt64(&done, 1)
@@ -654,7 +741,7 @@ func (e *c11Env) checkpoint(n *vfNode, rng *kit.RNG, label string, hot, warm []c
 		for _, k := range keys {
 			f := e.fetchQuiescent(n, k, label+tag)
 			if f.OK {
-				e.judgeNow(f)
+				e.judgeNow(f, false)
 				e.rep.Count("quiescent_fetches", 1)
 			}
 		}
@@ -674,13 +761,13 @@ func (e *c11Env) checkpoint(n *vfNode, rng *kit.RNG, label string, hot, warm []c
 		}
 		f := e.fetchQuiescent(n, k, label+"/rw")
 		if f.OK {
-			e.judgeNow(f)
+			e.judgeNow(f, false)
 			e.rep.Count("read_your_write_checks", 1)
 		}
 		if i%2 == 1 && !e.cfg.CacheOff {
 			e.purge(srv)
 			if f := e.fetchQuiescent(n, k, label+"/rw-cold"); f.OK {
-				e.judgeNow(f)
+				e.judgeNow(f, false)
 				e.rep.Count("read_your_write_checks", 1)
 			}
 		}
@@ -692,21 +779,75 @@ func (e *c11Env) checkpoint(n *vfNode, rng *kit.RNG, label string, hot, warm []c
 // read back: reported under its own fingerprint.
 func (e *c11Env) fetchQuiescent(n *vfNode, k c11Key, phase string) c11Op {
 	var f c11Op
-	for attempt := 0; attempt < 4; attempt++ {
+	attempts, transient := 4, 0
+	for a := 0; a < attempts; a++ {
 		f = e.doFetch(n, 0, k, phase)
 		if f.OK {
 			return f
 		}
 		e.rep.Count("quiescent_fetch_errors", 1)
-		time.Sleep(20 * time.Millisecond)
+		if e.cfg.CleanMode == "ticker" && c11TransientCleanerError(f.Err) {
+			// the log's own cleaner is running (this point is quiescent only
+			// as far as the harness is concerned): a reader that loses its
+			// segment to the cleaner reports an error, which is no answer
+			transient++
+			if attempts < 150 {
+				attempts++
+			}
+		}
+		time.Sleep(15 * time.Millisecond)
 	}
 	srv := n.Server()
 	if srv == nil || !c11Ready(srv, e.cfg.Parts, 50*time.Millisecond) {
 		e.inconclusive("fetch at " + phase + " failed and the node is not a ready cursors leader: " + f.Err)
 		return f
 	}
+	if c11TransientCleanerError(f.Err) && e.cfg.CleanMode == "ticker" {
+		e.inconclusive("fetch at " + phase + " kept colliding with the cleaner ticker: " + f.Err)
+		return f
+	}
 	e.violation("fetch-fails", phase, fmt.Sprintf("FetchCursor(%s) keeps failing at a quiescent point (%s) on a server that leads every cursors partition: %s", k, phase, f.Err), k.String(), f.Seq)
 	return f
+}
+
+func c11TransientCleanerError(msg string) bool {
+	return strings.Contains(msg, "segment has been closed") || strings.Contains(msg, "segment was replaced") ||
+		strings.Contains(msg, "segment not found") || strings.Contains(msg, "file already closed")
+}
+
+// touchAll makes every cursors partition receive a message (used before a
+// forced Clean() when auto-pause is on, so that the pause timer cannot close
+// the log under the cleaner).
+func (e *c11Env) touchAll(n *vfNode, warm []c11Key, phase string) {
+	srv := n.Server()
+	if srv == nil {
+		return
+	}
+	st := srv.metadata.GetStream(cursorsStream)
+	if st == nil {
+		return
+	}
+	np := uint32(len(st.GetPartitions()))
+	seen := map[uint32]bool{}
+	for _, k := range warm {
+		pid := hasher(c11WireKey(k.String())) % np
+		if seen[pid] {
+			continue
+		}
+		if op := e.doSet(n, 0, k, phase); op.OK {
+			seen[pid] = true
+		}
+	}
+	for i := 0; uint32(len(seen)) < np && i < 64; i++ {
+		k := e.newCold()
+		pid := hasher(c11WireKey(k.String())) % np
+		if seen[pid] {
+			continue
+		}
+		if op := e.doSet(n, 0, k, phase); op.OK {
+			seen[pid] = true
+		}
+	}
 }
 
 // evict pushes more than cursorCacheSize distinct keys through the cache.
@@ -714,21 +855,27 @@ func (e *c11Env) evict(n *vfNode, rng *kit.RNG) {
 	e.step("evict")
 	srv := n.Server()
 	count := cursorCacheSize + rng.Range(8, 40)
-	// half through sets, half through fetches of never-set keys (both fill the cache)
+	// `count` acknowledged sets of distinct keys (every acknowledged set adds
+	// its key to the cache), interleaved with fetches of never-set keys
 	var wg sync.WaitGroup
-	per := count / 4
+	per := count/4 + 1
 	for w := 0; w < 4; w++ {
 		wg.Add(1)
 		go func(w int) {
 			defer wg.Done()
-			for i := 0; i < per+1; i++ {
+			for i, acked := 0, 0; acked < per && i < 3*per; i++ {
 				k := e.newCold()
-				if (i+w)%3 == 0 {
+				if (i+w)%5 == 0 {
 					e.doFetch(n, w, k, "evict")
-				} else if op := e.doSet(n, w, k, "evict"); op.OK && i%8 == 0 {
-					e.mu.Lock()
-					e.coldSet = append(e.coldSet, k)
-					e.mu.Unlock()
+					continue
+				}
+				if op := e.doSet(n, w, k, "evict"); op.OK {
+					acked++
+					if acked%8 == 0 {
+						e.mu.Lock()
+						e.coldSet = append(e.coldSet, k)
+						e.mu.Unlock()
+					}
 				}
 			}
 		}(w)
